@@ -2,4 +2,4 @@ From Coq Require Import Extraction ExtrOcamlBasic.
 From SL Require Import Submit.Run.
 Extraction Language OCaml.
 Extraction "submit_gen.ml" byte_of_N byte_to_N parse_dec_Z decZ
-  mk_acert run_submit run_load run_setroots run_upissuers run_submit_dedup.
+  mk_acert run_submit run_load run_setroots run_upissuers run_submit_dedup run_cachekey.
